@@ -24,6 +24,7 @@ import traceback
 from core import REPO, Ctx, ToolFailure, Violation, line
 
 PROP = "C20"
+EXTRA_LEAN_MODULES = ["DirectVerif.Props.C20Guards"]
 MANIFEST = {
     "text": "Lean 4: executable model of OmegaConf's structured merge (typed schema generated from the live dataclasses), of the "
             "key loop of setup_common_environment, of the name arithmetic of load_model_from_name / "
@@ -333,11 +334,19 @@ def _worker(task):
                 p.unlink(missing_ok=True)
         if kind == "defaults":
             return real_defaults(task[1])
+        if kind == "phase3":
+            return real_phase3(task[1])
     except ToolFailure as e:
         return {"answer": f"tool-failure {e}", "failures": []}
     except BaseException as e:  # noqa: BLE001
         return {"answer": f"tool-failure {_err(e)}: {e}", "failures": [], "traceback": _tb(e)}
     return None
+
+
+def _timed_worker(task):
+    t0 = time.time()
+    r = _worker(task)
+    return r, round(time.time() - t0, 2)
 
 
 def real_defaults(device: str) -> list[dict]:
@@ -461,6 +470,440 @@ def real_defaults(device: str) -> list[dict]:
                            functions=_tb_functions(e)[-4:])
             out.append(rec)
     return out
+
+
+# --------------------------------------------------------------------------------------------------
+# phase 3: value-level guards, keyword policies, consumers, attribute chains — the REAL side
+GUARD_EXC = ("ValueError", "NotImplementedError", "AssertionError")
+
+
+def _model_case(name: str, block: dict, route: int):
+    """route 0: 1 = the real constructor (meta device) accepts the merged block and no dispatch with a raising else falls
+    through, 0 = a guard rejects it.  route 4: 1 = every dispatch without a raising else takes a named branch (or the value
+    equals a member that owns the fallback)."""
+    import importlib
+
+    import torch
+    from omegaconf import OmegaConf
+
+    import direct.data.transforms as TR
+    import direct.environment as E
+    from core import REPO as repo
+    from translate.recipes.c20_guards import route_probes
+
+    cls = E.load_model_from_name(name)
+    cfg = OmegaConf.merge(OmegaConf.structured(E.load_model_config_from_name(name)), OmegaConf.create(block))
+    kwargs = {k: cfg[k] for k in cfg.keys() if k not in ("engine_name",)}
+    import inspect
+
+    params = inspect.signature(cls.__init__).parameters
+    if "forward_operator" in params:
+        kwargs.update(forward_operator=TR.fft2, backward_operator=TR.ifft2)
+    else:
+        kwargs.pop("model_name", None)
+    probes = route_probes(cls, repo)
+
+    def received(p):
+        if p in kwargs:
+            return kwargs[p]
+        q = params.get(p)
+        return None if q is None or q.default is inspect.Parameter.empty else q.default
+
+    if route == 4:
+        for pr in probes:
+            if pr["raises"]:
+                continue
+            v = received(pr["param"])
+            if not v:
+                continue
+            if pr["index"](v) < pr["n_tests"]:
+                continue
+            owners = [m for m in (pr["enum"] or []) if pr["index"](m) == pr["n_tests"]]
+            if not any(v == m for m in owners):
+                return "ok 0"
+        return "ok 1"
+    try:
+        with torch.device("meta"):
+            cls(**kwargs)
+    except Exception as e:  # noqa: BLE001
+        return "ok 0" if type(e).__name__ in GUARD_EXC else "ok 2"
+    for pr in probes:
+        if pr["raises"] and pr["index"](received(pr["param"])) == pr["n_tests"]:
+            return "ok 0"
+    return "ok 1"
+
+
+def _mask_case(name: str, block: dict, typed: bool):
+    from omegaconf import OmegaConf
+
+    import direct.common.subsample as S
+    from direct.common.subsample_config import MaskingConfig
+
+    kw = dict(block)
+    if typed:
+        kw = OmegaConf.merge(OmegaConf.structured(MaskingConfig), OmegaConf.create({**block, "name": name}))
+    else:
+        kw["name"] = name
+    try:
+        S.build_masking_function(**kw)
+    except Exception as e:  # noqa: BLE001
+        return "ok 0" if type(e).__name__ in GUARD_EXC else "ok 2"
+    return "ok 1"
+
+
+def _dataset_case(name: str, block: dict, typed: bool):
+    from omegaconf import OmegaConf
+
+    import direct.data.datasets as DS
+    import direct.environment as E
+
+    kw = dict(block)
+    if typed:
+        cfg = OmegaConf.merge(OmegaConf.structured(E.load_dataset_config(name)), OmegaConf.create({**block, "name": name}))
+        kw = {k: cfg[k] for k in cfg.keys() if k not in ("name", "transforms") and not OmegaConf.is_missing(cfg, k)}
+    cls = getattr(DS, name + "Dataset")
+    import inspect
+
+    params = inspect.signature(cls.__init__).parameters
+    base = {}
+    if "data_root" in params:
+        d = _scratch() / "empty_root"
+        d.mkdir(exist_ok=True)
+        base["data_root"] = d
+    if name == "FakeMRIBlobs":
+        base.update(sample_size=2, num_coils=2, spatial_shape=[8, 8])
+    try:
+        cls(transform=None, **base)
+    except Exception as e:  # noqa: BLE001 — this class cannot be constructed without data: no verdict from the real side
+        raise RuntimeError("baseline") from e
+    base.update({k: v for k, v in kw.items() if v is not None or k in block})
+    try:
+        cls(transform=None, **base)
+    except Exception as e:  # noqa: BLE001
+        return "ok 0" if type(e).__name__ in GUARD_EXC else "ok 2"
+    return "ok 1"
+
+
+def _installed_cfg():
+    from omegaconf import OmegaConf
+
+    from direct.config.defaults import DefaultConfig, InferenceConfig, ModelConfig, TrainingConfig, ValidationConfig
+
+    cfg = OmegaConf.structured(DefaultConfig)
+    cfg.model = ModelConfig
+    cfg.training = TrainingConfig
+    cfg.validation = ValidationConfig
+    cfg.inference = InferenceConfig
+    return cfg
+
+
+def _consumer_value(cfg, path):
+    node = cfg
+    for p in path:
+        node = node[p]
+    return node
+
+
+def _consume_real(value):
+    """the real `_compute_resolution` on the value: 1 = returns, 0 = raises ValueError"""
+    import torch
+
+    from direct.nn.mri_models import _compute_resolution
+
+    try:
+        _compute_resolution(value, [torch.tensor([4]), torch.tensor([4]), torch.tensor([1])])
+    except ValueError:
+        return 0
+    return 1
+
+
+def _consume_case(path: list, tree: dict):
+    from omegaconf import OmegaConf
+
+    cfg = OmegaConf.merge(_installed_cfg(), OmegaConf.create(tree))
+    return f"ok {_consume_real(_consumer_value(cfg, path))}"
+
+
+def _kwpol_real(name: str, key: str):
+    """`Model(**{defaults…, key: 1})`: 1 unless the constructor's own keyword handling refuses the key"""
+    import inspect
+
+    import torch
+    from omegaconf import OmegaConf
+
+    import direct.data.transforms as TR
+    import direct.environment as E
+
+    cls = E.load_model_from_name(name)
+    cfg = OmegaConf.structured(E.load_model_config_from_name(name))
+    kwargs = {k: cfg[k] for k in cfg.keys() if k not in ("engine_name", "model_name")}
+    if "forward_operator" in inspect.signature(cls.__init__).parameters:
+        kwargs.update(forward_operator=TR.fft2, backward_operator=TR.ifft2)
+    if key not in kwargs:
+        kwargs[key] = 1
+    try:
+        with torch.device("meta"):
+            cls(**kwargs)
+    except TypeError as e:
+        return "ok 0" if "unexpected keyword" in str(e) else "ok 1"
+    except ValueError as e:
+        return "ok 0" if "not supported" in str(e) else "ok 1"
+    except Exception:  # noqa: BLE001 — the key was let through; what the constructor does with the value 1 is another matter
+        return "ok 1"
+    return "ok 1"
+
+
+def _chain_case(path: list):
+    from omegaconf import DictConfig
+    from omegaconf.errors import ConfigAttributeError, ConfigKeyError
+
+    node = _installed_cfg()
+    for p in path:
+        if not isinstance(node, DictConfig):
+            return "ok 1"           # a step on a scalar / list / None is not a key look-up
+        try:
+            node = getattr(node, p)
+        except (ConfigAttributeError, ConfigKeyError):
+            return "ok 0"
+        except Exception:  # noqa: BLE001  (MissingMandatoryValue: the key exists)
+            return "ok 1"
+    return "ok 1"
+
+
+def _optim_case(tree: dict):
+    from omegaconf import OmegaConf
+
+    from direct.utils import str_to_class
+
+    cfg = OmegaConf.merge(_installed_cfg(), OmegaConf.create(tree))
+    try:
+        str_to_class("torch.optim", cfg.training.optimizer)
+    except (AttributeError, ModuleNotFoundError):
+        return "ok 0"
+    return "ok 1"
+
+
+BIND_VALUES = {"accelerations": [5], "center_fractions": [0.1], "subsampling_scheme": "circus-radial"}
+
+
+def _binds_case(name: str, keys: list):
+    import direct.common.subsample as S
+
+    try:
+        S.build_masking_function(name=name, **{k: BIND_VALUES[k] for k in keys})
+    except TypeError as e:
+        return "ok 0" if "required" in str(e) and "argument" in str(e) else "ok 1"
+    except Exception:  # noqa: BLE001
+        return "ok 1"
+    return "ok 1"
+
+
+def real_phase3(cases: list) -> list:
+    """answers of the real code for the phase-3 correspondence cases (one worker: everything here is cheap)"""
+    _patch_sandbox()
+    out = []
+    for c in cases:
+        try:
+            k = c["op"]
+            if k == "guard" and c["route"] in (0, 4):
+                out.append(_model_case(c["name"], c["block"], c["route"]))
+            elif k == "guard" and c["route"] == 1:
+                out.append(_mask_case(c["name"], c["block"], c["typed"]))
+            elif k == "guard" and c["route"] == 2:
+                out.append(_dataset_case(c["name"], c["block"], c["typed"]))
+            elif k == "consume":
+                # a consumer of a section that is not in use (no validation datasets, no inference dataset) is never reached
+                out.append(_consume_case(c["path"], c["tree"]) if c["in_use"] else "ok 1")
+            elif k == "kwpol":
+                out.append(_kwpol_real(c["name"], c["key"]))
+            elif k == "chain":
+                out.append(_chain_case(c["path"]))
+            elif k == "optim":
+                out.append(_optim_case(c["tree"]))
+            elif k == "binds":
+                out.append(_binds_case(c["name"], c["keys"]))
+            else:
+                out.append("err BadCase")
+        except Exception as e:  # noqa: BLE001 — the merge refused the candidate, …: visible as an answer, never hidden
+            out.append("skip " + type(e).__name__)
+    return out
+
+
+def phase3_cases(info, rng, thorough: bool) -> list:
+    """candidate inputs for every extracted guard / policy / consumer / chain: the values the guard names, their case
+    variants, neighbours of the numeric bounds, and values the guard must reject"""
+    import dataclasses
+    import enum as _enum
+    import typing
+
+    cases: list[dict] = []
+
+    def field_type(module, attr, param):
+        c = info.schema_classes.get((module.rsplit(".", 1)[0] + ".config", attr + "Config"))
+        if c is None:
+            return None, False
+        try:
+            h = typing.get_type_hints(c).get(param)
+        except Exception:  # noqa: BLE001
+            return None, False
+        if h is None:
+            return None, False
+        core = [a for a in typing.get_args(h) if a is not type(None)] if typing.get_origin(h) is typing.Union else [h]
+        return (core[0] if len(core) == 1 else None), True
+
+    def spellings(consts, ftype):
+        """configuration spellings for the constants of a guard, plus rejected neighbours"""
+        out = []
+        if isinstance(ftype, type) and issubclass(ftype, _enum.Enum):
+            out += list(ftype.__members__)                # every member name: allowed ones and the others
+            return out
+        for c in consts:
+            if c[0] == "str":
+                out += [c[1], c[1].upper(), c[1].lower()]
+            elif c[0] == "none":
+                out.append(None)
+            elif c[0] == "int":
+                out.append(c[1])
+        out += ["x", "Nonexistent"]
+        return [v for i, v in enumerate(out) if v not in out[:i]]
+
+    for gc in info.guard_classes:
+        if gc["route"] == 0:
+            name = gc["module"][len("direct.nn."):] + "." + gc["attr"]
+            rows = [(g["param"], g["guard"], 0) for g in gc["guards"]] + \
+                   [(r["param"], ("oneOf", r["consts"]), 0 if r["raises"] else 4) for r in gc["routes"]]
+            for param, g, route in rows:
+                ftype, is_field = field_type(gc["module"], gc["attr"], param)
+                if not is_field:
+                    continue
+                if g[0] in ("oneOf", "oneOfOrFalsy"):
+                    vals = spellings(g[1], ftype)
+                elif g[0] == "eqOrRange":
+                    vals = [-1, 0, 1, 2, 3, 7, 8, 9, 10, 11, 40]
+                else:
+                    continue
+                for v in vals:
+                    if isinstance(v, str) and v not in info.sym:
+                        continue
+                    block = {"model_name": name, param: v}
+                    if g[0] == "eqOrRange" and rng.random() < 0.5:
+                        block[g[3]] = rng.choice([1, 2, 8, 10])
+                    cases.append({"op": "guard", "route": route, "typed": 1, "name": name, "block": block,
+                                  "bucket": f"guard/model/{g[0]}{'(soft)' if route == 4 else ''}"})
+            # keyword handling
+            cfg_cls = info.schema_classes.get((gc["module"].rsplit(".", 1)[0] + ".config", gc["attr"] + "Config"))
+            keys = ["bogus_key_zz", "steps", "sensitivity_map_model", "image_center_crop", "x", "kspace_context"]
+            if cfg_cls is not None:
+                keys += [f.name for f in dataclasses.fields(cfg_cls) if f.name not in gc["params"]
+                         and f.name not in ("model_name", "engine_name")][:3]
+            for k in keys if thorough else rng.sample(keys, min(len(keys), 3)):
+                cases.append({"op": "kwpol", "name": name, "key": k, "bucket": "kwpol/" + ("varkw" if gc["varkw"] else "fixed")})
+        elif gc["route"] == 1 and gc["guards"]:
+            name = gc["attr"][:-len("MaskFunc")]
+            cfs = [[0.1], [0.5, 0.1], [1.0], [0.0], [2], [12, 4], [1], [2.5], [], None, "ABSENT"]
+            accs = [[4], [5], [10], [5.0], [4, 8], [5, 10]]
+            for typed in (0, 1):
+                for cf in cfs if thorough else rng.sample(cfs, 6):
+                    block = {"accelerations": rng.choice(accs)}
+                    if cf != "ABSENT":
+                        block["center_fractions"] = cf
+                    if "subsampling_scheme" in gc["required"]:
+                        continue
+                    cases.append({"op": "guard", "route": 1, "typed": typed, "name": name, "block": block,
+                                  "bucket": f"guard/mask/{'typed' if typed else 'raw'}"})
+        elif gc["route"] == 2 and gc["guards"]:
+            name = gc["attr"][:-len("Dataset")]
+            for g in gc["guards"]:
+                if g["guard"][0] == "oneOf":
+                    vals = spellings(g["guard"][1], None) + ["ABSENT"]
+                elif g["guard"][0] == "lenIn":
+                    vals = [[8], [8, 8], [4, 8, 8], [2, 4, 8, 8], []]
+                else:
+                    continue
+                for typed in (0, 1):
+                    for v in vals:
+                        if isinstance(v, str) and v != "ABSENT" and v not in info.sym:
+                            continue
+                        block = {} if v == "ABSENT" else {g["param"]: v}
+                        if name == "FakeMRIBlobs" and typed:
+                            block = {"sample_size": 2, "num_coils": 2, **({"spatial_shape": [8, 8]} if v == "ABSENT" else block)}
+                        cases.append({"op": "guard", "route": 2, "typed": typed, "name": name, "block": block,
+                                      "bucket": f"guard/dataset/{'typed' if typed else 'raw'}"})
+    # consumers
+    verified = [c for c in info.consumers if c["verified"]]
+    for i, c in enumerate(verified):
+        for v in [None, "header", "training", "HEADER", "", "x", "ABSENT"]:
+            for in_use in (True, False):
+                tree: dict = {}
+                node = tree
+                for p in c["path"][:-1]:
+                    node = node.setdefault(p, {})
+                if v != "ABSENT":
+                    node[c["path"][-1]] = v
+                if in_use:
+                    sec = tree.setdefault(c["needs"][0], {})
+                    if c["needs"][1] == "datasets":
+                        sec["datasets"] = [{"name": "FakeMRIBlobs"}]
+                    else:
+                        sec["dataset"] = {"name": "FakeMRIBlobs"}
+                elif v == "ABSENT":
+                    continue
+                cases.append({"op": "consume", "i": i, "path": c["path"], "tree": tree, "in_use": in_use,
+                              "bucket": "consume/" + ".".join(c["path"])})
+    # attribute chains: the extracted ones and corrupted variants
+    chains = sorted({ch[2] for ch in info.cfg_chains})
+    for path in chains:
+        cases.append({"op": "chain", "path": list(path), "bucket": "chain/extracted"})
+        cases.append({"op": "chain", "path": list(path[:-1]) + ["bogus_key_zz"], "bucket": "chain/corrupted-last"})
+        if len(path) > 1:
+            cases.append({"op": "chain", "path": list(path[:-2]) + [path[-1]], "bucket": "chain/dropped-step"})
+    for extra in (["inference", "dataset", "transforms", "cropping", "crop"], ["inference", "dataset", "transforms", "crop"],
+                  ["inference", "dataset", "transforms", "masking", "name"], ["logging", "tensorboard", "num_images"],
+                  ["training", "loss", "losses"], ["training", "crop"], ["validation", "lr"]):
+        cases.append({"op": "chain", "path": extra, "bucket": "chain/probe"})
+    for v in ["Adam", "SGD", "AdamW", "adam", "Nonexistent", "x", "ABSENT"]:
+        cases.append({"op": "optim", "tree": {} if v == "ABSENT" else {"training": {"optimizer": v}}, "bucket": "optim"})
+    for gc in info.guard_classes:
+        if gc["route"] == 1:
+            name = gc["attr"][:-len("MaskFunc")]
+            for keys in (["accelerations"], ["accelerations", "center_fractions"], ["accelerations", "subsampling_scheme"]):
+                cases.append({"op": "binds", "name": name, "keys": keys, "bucket": "binds"})
+    if not thorough:
+        keep: list[dict] = []
+        by_op: dict[str, list] = {}
+        for c in cases:
+            by_op.setdefault(c["op"], []).append(c)
+        caps = {"guard": 220, "chain": 70, "binds": 24, "kwpol": 30}
+        for op, cs in by_op.items():
+            if op in caps and len(cs) > caps[op]:
+                # keep every bucket represented, then fill up at random
+                rng.shuffle(cs)
+                seen, first, rest = set(), [], []
+                for c in cs:
+                    (first if c["bucket"] not in seen else rest).append(c)
+                    seen.add(c["bucket"])
+                cs = first + rest[:max(0, caps[op] - len(first))]
+            keep += cs
+        cases = keep
+    return cases
+
+
+def phase3_line(c: dict, info) -> str:
+    cps = lambda s: [ord(ch) for ch in s]  # noqa: E731
+    k = c["op"]
+    if k == "guard":
+        return line("guard", [c["route"], c["typed"]], cps(c["name"]), enc_val(c["block"], info))
+    if k == "consume":
+        return line("consume", [c["i"]], enc_val(c["tree"], info))
+    if k == "kwpol":
+        return line("kwpol", cps(c["name"]), cps(c["key"]))
+    if k == "chain":
+        return line("chain", [info.sym[p] for p in c["path"]])
+    if k == "optim":
+        return line("optim", enc_val(c["tree"], info))
+    if k == "binds":
+        return line("binds", cps(c["name"]), [info.sym[x] for x in c["keys"]])
+    raise ValueError(k)
 
 
 # --------------------------------------------------------------------------------------------------
@@ -729,22 +1172,39 @@ def prepare(ctx: Ctx):
         for rel in cpu_sample:
             tasks.append((("cpu", rel), ("file", rel, trees[rel], "cpu")))
     tasks.append((("defaults", 0), ("defaults", device_all)))
+    p3 = phase3_cases(info, rng, ctx.thorough)
+    # split over a few workers: the model cases dominate
+    n_chunks = 4
+    for j in range(n_chunks):
+        tasks.append((("phase3", j), ("phase3", p3[j::n_chunks])))
     t0 = time.time()
     _scratch()          # created before the fork: shared by all workers, removed below
     mp = multiprocessing.get_context("fork")
     try:
         with mp.Pool(N_WORKERS) as pool:
             try:
-                results = pool.map_async(_worker, [t for _, t in tasks], chunksize=1).get(timeout=3000 if ctx.thorough else 900)
+                timed = pool.map_async(_timed_worker, [t for _, t in tasks], chunksize=1).get(timeout=3000 if ctx.thorough else 900)
             except multiprocessing.TimeoutError as e:
                 raise ToolFailure("real configuration sweep timed out") from e
     finally:
         _cleanup()
+    results = [r for r, _ in timed]
+    per_kind: dict[str, list] = {}
+    for (k, _), (_, dt) in zip(tasks, timed):
+        per_kind.setdefault(k[0], []).append(dt)
+    ctx.notes.append("worker seconds per task kind (sum / max): " +
+                     ", ".join(f"{k} {sum(v):.1f}/{max(v):.1f}" for k, v in sorted(per_kind.items())))
     by_key = {k: r for (k, _), r in zip(tasks, results)}
     for k, r in by_key.items():
+        if k[0] == "phase3" and not isinstance(r, list):
+            raise ToolFailure(f"worker failed on {k}: {r}")
         if isinstance(r, dict) and str(r.get("answer", "")).startswith("tool-failure"):
             raise ToolFailure(f"worker failed on {k}: {r['answer']}\n{r.get('traceback', '')}")
-    _STATE.update(results=by_key, muts=muts, cpu_sample=cpu_sample, device_all=device_all, sweep_s=round(time.time() - t0, 1))
+    p3_answers: list = [None] * len(p3)
+    for j in range(n_chunks):
+        p3_answers[j::n_chunks] = by_key[("phase3", j)]
+    _STATE.update(results=by_key, muts=muts, cpu_sample=cpu_sample, device_all=device_all, sweep_s=round(time.time() - t0, 1),
+                  phase3=list(zip(p3, p3_answers)))
     ctx.notes.append(f"real sweep: {len(tasks)} tasks on {N_WORKERS} workers in {_STATE['sweep_s']} s; files on {device_all}; "
                      f"CPU sample {cpu_sample}")
 
@@ -883,6 +1343,17 @@ def correspondence(ctx: Ctx):
                "impl": sysexit(lambda n=n: str_to_class("direct.common.subsample", n + "MaskFunc")),
                "key": ("resolve4", n), "nontrivial": True, "bucket": "resolve/masking"}
 
+
+    # (6) phase 3: guards / keyword policies / consumers / attribute chains / optimizer / mandatory masking parameters
+    skipped = 0
+    for c, ans in _STATE.get("phase3", []):
+        if str(ans).startswith("skip"):
+            skipped += 1
+            continue
+        yield {"line": phase3_line(c, info), "impl": (lambda a=ans: a), "key": ("p3", repr(sorted(c.items(), key=lambda kv: kv[0]))),
+               "nontrivial": True, "bucket": c["bucket"] + " -> " + str(ans).replace(" ", "-")}
+    if skipped:
+        ctx.notes.append(f"phase-3 candidates refused by the merge (not guard cases): {skipped}")
 
     # (5) the registry tables: every registered model / engine / dataset / masking function / TransformsType member /
     #     referenced metric, regularizer and loss, through the real look-up functions
